@@ -62,6 +62,13 @@ impl SystemdUnitFile {
     }
 
     pub fn load_from_path(path: &Path) -> Result<Self, IoError> {
+        // a unit file is a regular file (or a link to one): reading a FIFO would block
+        // for ever and a device like /dev/zero never ends
+        let file_type = fs::metadata(path)?.file_type();
+        if !file_type.is_file() && !file_type.is_dir() {
+            return Err(io::Error::new(io::ErrorKind::InvalidInput, "not a regular file").into());
+        }
+
         let buf = fs::read_to_string(&path)?;
 
         Ok(SystemdUnitFile {
